@@ -252,6 +252,7 @@ type vpC16Run struct {
 	started map[string]bool
 	ended   map[string]bool
 
+	slotCh   atomic.Value // chan struct{}
 	gauge    atomic.Int32
 	maxGauge atomic.Int32
 	selfWG   sync.WaitGroup
@@ -288,7 +289,15 @@ func (r *vpC16Run) isEnded(id string) bool {
 	return r.ended[id]
 }
 
-func (r *vpC16Run) slotsHeld() int { return len(r.s.concurrencyCh) }
+// slotsHeld: occupied TimeoutHandler slots (white box). The channel is picked up inside the first
+// handler call (a goroutine the server started after creating it), never from Server directly: the
+// harness goroutine has no happens-before edge with Serve's initialisation.
+func (r *vpC16Run) slotsHeld() int {
+	if ch, ok := r.slotCh.Load().(chan struct{}); ok {
+		return len(ch)
+	}
+	return 0 // no handler has run yet, so no wrapped handler holds a slot
+}
 
 func (r *vpC16Run) waitSlots(atMost int, max time.Duration) bool {
 	deadline := time.Now().Add(max)
@@ -358,6 +367,11 @@ func (r *vpC16Run) inner(q vpC16Req) RequestHandler {
 }
 
 func (r *vpC16Run) handler(ctx *RequestCtx) {
+	if r.slotCh.Load() == nil {
+		if ch := ctx.s.concurrencyCh; ch != nil {
+			r.slotCh.CompareAndSwap(nil, ch)
+		}
+	}
 	q, ok := r.specs[string(ctx.QueryArgs().Peek("id"))]
 	if !ok {
 		ctx.Error("unknown id", 500)
